@@ -64,6 +64,9 @@ type Program struct {
 	Files     [][]int // decl indices per file (file 0 holds types and providers)
 	// ExtraImports are import spec lines for file 0, e.g. `ttemplate "text/template"`.
 	ExtraImports []string
+	// SeparateRuns: the generator is invoked once per declaration file, in order, instead of
+	// once with all files.
+	SeparateRuns bool
 	// ReplayTypes: emit types that carry the identity of the term that
 	// produced them (replay instrumentation only).
 	ReplayTypes bool
